@@ -69,6 +69,10 @@ INFO = {
            "an input needing single-term simplification + a non-inplace history (s = t.remove_ind(ix); then contract t)"),
  "C02_4": ("C02", "non-inplace restore_ind pops the index from self.sliced_inds before copying",
            "sliced/projected tree s, non-inplace s.restore_ind(ix) or s.unslice_rand(), then continued use of s"),
+ "C04_3": ("C04", "set_state_from transfers (_track_*, total) pairs in one loop and assigns _sizes without .copy()",
+           "copy() or any non-inplace op while size tracking is on, then mutate one tree, then query the size of the other"),
+ "C04_4": ("C04", "restore_ind rescales the cached flops by si.size and passes it as cost= instead of recomputing",
+           "option combination: project an index (SliceInfo.size == 1), then restore it"),
  "C08_3": ("C08", "_gen_results_parallel primes the pool with pre_dispatch trials regardless of `repeats`",
            "pool search with max_repeats < pre_dispatch = max(n_workers + 4, 1.2 n_workers)"),
  "C08_4": ("C08", "_maybe_report_result appends costs_flops/write/size only for trials that produced a tree",
